@@ -996,6 +996,13 @@ def gen_twopath(seed: int, tier: str = "quick") -> Dict[str, Any]:
              "beh": {"bseed": rng.randrange(1 << 30), "step_sizes": [rng.choice([1, 1, 1, 2])]}}
         sims.append(W)
         Y["beh"]["p_out"] = rng.choice([0.5, 1.0])
+        if rng.random() < 0.6:
+            # both paths undelayed (equal tiers, different cutoff), the consumer a group-mate of Y
+            W["group"] = Y["group"]
+            for c_ in conns:
+                if c_["dst"] == 2 or c_["src"] == 3 or (len(sims) > 5 and c_["src"] == 4):
+                    c_["shift"], c_["weak"] = 0, False
+            X["beh"]["p_out"] = rng.choice([0.5, 0.7])
         conns.append({"src": 2, "se": 0, "dst": len(sims) - 1, "de": 0, "pairs": [["e_out", "m_in"]],
                       "shift": 0, "weak": False})
     cfg = {"cache": rng.random() < 0.5, "lazy": rng.random() < 0.6, "debug": False, "mli": 8,
